@@ -634,7 +634,7 @@ DnsMessage::decodeNameWithLoopDetection(const std::uint8_t *data, std::size_t of
     offset += length + 1;
 
     totalLength += length + 1;
-    if (totalLength > constants::DNS_MAX_NAME_SIZE)
+    if (totalLength + 1 > constants::DNS_MAX_NAME_SIZE) // + 1: the root label that ends the name
     {
       throw DnsParseException("Domain name too long: " + std::to_string(totalLength) + " (max " +
                               std::to_string(constants::DNS_MAX_NAME_SIZE) + ")");
